@@ -59,6 +59,11 @@ def shards(tier):
             out.append({"part": "one", "kind": kind, "tier": tier, "n": n - 1, "first": None})
         else:
             out.append({"part": "one", "kind": kind, "tier": tier, "n": n, "first": None})
+    # particular values: text that looks like a missing marker or differs in blanks only, dates outside the nanosecond
+    # range, the ends of the int64 range
+    out.append({"part": "one", "kind": "str", "tier": tier, "n": 3, "first": None, "alpha": [None, "nan", "None", "NA", " a", "a ", "a"]})
+    out.append({"part": "one", "kind": "D", "tier": tier, "n": 3, "first": None, "alpha": [None, "0001-01-01", "9999-12-31", "1677-09-21", "2262-04-12"]})
+    out.append({"part": "one", "kind": "i8", "tier": tier, "n": 3, "first": None, "alpha": [0, -9223372036854775808, 9223372036854775807, -1]})
     # object keys of mixed type that are equal in Python: 1 == 1.0 == True is ONE group
     out.append({"part": "one", "kind": "obj", "tier": tier, "n": 3, "first": None, "alpha": [None, 1, 1.0, True, 2]})
     for kind in KINDS:
